@@ -7,6 +7,7 @@ import (
 	"fmt"
 	"github.com/yuin/goldmark/ast"
 	"github.com/yuin/goldmark/renderer"
+	"github.com/yuin/goldmark/text"
 	"github.com/yuin/goldmark/util"
 	"io"
 	"strings"
@@ -64,7 +65,8 @@ func (r richWriter) WriteByte(c byte) error {
 }
 func (r richWriter) WriteRune(c rune) (int, error) { return r.f.Write([]byte(string(c))) }
 
-var c14Variants = []string{"plain io.Writer", "caller bufio.Writer(16)", "io.Writer, transient failure", "writer with WriteByte/WriteString/WriteRune", "same, transient failure", "plain io.Writer, with a user node renderer that flushes after each paragraph and returns the error it gets"}
+var c14Variants = []string{"plain io.Writer", "caller bufio.Writer(16)", "io.Writer, transient failure", "writer with WriteByte/WriteString/WriteRune", "same, transient failure", "plain io.Writer, with a user node renderer that flushes after each paragraph and returns the error it gets",
+	"plain io.Writer, through Parser().Parse + Renderer().Render", "writer with WriteByte/WriteString/WriteRune, through Parse + Render", "caller bufio.Writer(16), through Parse + Render"}
 
 // c14Flusher is a user-supplied node renderer for paragraphs that, unlike the built-in ones, looks at what the buffered
 // writer reports: it flushes when it leaves a paragraph and hands a failure back to the walk.
@@ -102,15 +104,20 @@ func c14Case(s *core.Sub, cfg core.Cfg, src, ref []byte, k, variant int) {
 	fw := &failWriter{k: k, transient: variant == 2 || variant == 4}
 	var w io.Writer = fw
 	switch variant {
-	case 1:
+	case 1, 8:
 		w = bufio.NewWriterSize(fw, 16)
-	case 3, 4:
+	case 3, 4, 7:
 		w = richWriter{fw}
 	}
 	var err error
 	var pan any
 	func() {
 		defer func() { pan = recover() }()
+		if variant >= 6 {
+			doc := md.Parser().Parse(text.NewReader(src))
+			err = md.Renderer().Render(w, src, doc)
+			return
+		}
 		err = md.Convert(src, w)
 	}()
 	ops := map[string]any{"fail_after_bytes": k, "variant": c14Variants[variant], "output_len": len(ref)}
@@ -184,7 +191,7 @@ func runC14(r *core.Run) {
 	n := core.Pick(r, 2, 3)
 	for _, cn := range []string{"core", "all+autoid+attr"} {
 		cfg := core.MustCfg(cn)
-		wordsSub(r, "words/"+cn, fmt.Sprintf("for each word: every byte offset k in [0,len(out)+1] at which the writer starts failing (short write + sentinel), in 6 writer variants (plain io.Writer, caller-supplied bufio.Writer(16), a writer that also has WriteByte/WriteString/WriteRune; the plain and the rich writer also with a transient failure after which calls succeed again), under %s: error wraps the sentinel, accepted bytes == out[:k]; distinct = reference output digest", cn),
+		wordsSub(r, "words/"+cn, fmt.Sprintf("for each word: every byte offset k in [0,len(out)+1] at which the writer starts failing (short write + sentinel), in 9 writer/entry variants (plain io.Writer, caller-supplied bufio.Writer(16), a writer that also has WriteByte/WriteString/WriteRune; the plain and the rich writer also with a transient failure after which calls succeed again; a user node renderer that returns the flush error; plain, rich and bufio writers through Parser().Parse + Renderer().Render instead of Convert), under %s: error wraps the sentinel, accepted bytes == out[:k]; distinct = reference output digest", cn),
 			alpha, n, func(s *core.Sub, w int) func([]byte) uint64 {
 				return func(word []byte) uint64 {
 					c14Doc(s, cfg, word, 1)
@@ -195,7 +202,7 @@ func runC14(r *core.Run) {
 	ex := Spec(r)
 	for _, cn := range []string{"core+unsafe+xhtml", "all"} {
 		cfg := core.MustCfg(cn)
-		s := r.Sub("spec/"+cn, fmt.Sprintf("all %d spec examples × every failing offset × 6 writer variants under %s", len(ex), cn))
+		s := r.Sub("spec/"+cn, fmt.Sprintf("all %d spec examples × every failing offset × 9 writer/entry variants under %s", len(ex), cn))
 		core.ForEachIndex(len(ex), core.Workers(), func(w int) func(int) {
 			return func(i int) {
 				c14Doc(s, cfg, []byte(ex[i].Markdown), 1)
